@@ -1640,11 +1640,20 @@ def sp_quad(f, a, b, *args, **kw):
        'ASSUMED, nothing is claimed otherwise); deterministic in (fun, x0, bounds)')
 def sp_least_squares(fun, x0, bounds=None, **kw):
     c = State.ctx
-    x = c.fresh('lsq_x')
+    lo, hi = (bounds if bounds is not None else (Sym(ir.NINF), Sym(ir.INF)))
+    # the solution is a deterministic function of (fun, x0, bounds): fun is named by its residual at a canonical probe
+    probe = ir.var('$lsq_probe')
+    saved = State.safety
+    State.safety = False
+    try:
+        rp = _I().call(fun, [Lane(probe, 1)], {})
+    finally:
+        State.safety = saved
+    rpt = rp.t if isinstance(rp, (Lane, Sym)) else to_term(rp)
+    x = ir.uf('lsq.x', [rpt, to_term(x0), to_term(lo), to_term(hi)])
     xl = Lane(x, 1)
     res = _I().call(fun, [xl], {})
     rt = res.t if isinstance(res, (Lane, Sym)) else to_term(res)
-    lo, hi = (bounds if bounds is not None else (Sym(ir.NINF), Sym(ir.INF)))
     c.assume(ir.and_(ir.le(to_term(lo), x), ir.le(x, to_term(hi))))
     # ENSURES residual(x) == 0 is handed to the contract through the event (kept out of the path condition: nothing
     # downstream in the library branches on it, and a non-linear equation over an uninterpreted integral makes
@@ -2133,7 +2142,7 @@ def sp_fmin_slsqp(f, x0, iprint=None, bounds=None, **kw):
     c = State.ctx
     x0t = [to_term(v) for v in x0]
     bt = [t for (lo, hi) in (bounds or []) for t in (to_term(lo), to_term(hi))]
-    probe = [Sym(c.fresh('slsqp_probe')) for _ in x0]
+    probe = [Sym(ir.var('$slsqp_probe%d' % j)) for j in range(len(x0))]       # canonical names: the objective's identity
     saved = State.safety
     State.safety = False
     try:
